@@ -26,3 +26,12 @@ CLAIMS["C03"] = (
     "byte view takes the address, counter/state widths. Found and repaired F-01, F-02, F-05, F-06 (see KNOWN_FINDINGS.json).",
     "Trusted: line classifier; flag implication ON_DEMAND => DYNAMIC (checked under C19/C11). Not decided: UB inside user arithmetic, "
     "input-chunk reads beyond the pointer protocol (C10).")
+CLAIMS["C11"] = (
+    "emission-path enumeration of header/source templates + def/use, guard-agreement and naming-agreement rules",
+    "Static, generator-level: 'compiles' for all programs is a property of the templates. Decided: every goto kind that can be emitted in feed/end "
+    "has a label of that kind there (and the label side ranges over the transitions of every emitted state); end/free/hooks declared and defined under "
+    "the same flag atoms with identical signatures; malloc/free only under atoms implying DYNAMIC_MEMORY (stdlib.h, free()); identifiers spelled by one "
+    "expression on declaring and using side; end() pointer-free with inval #defined; width table refusal; inval referenced when declared. "
+    "Found and repaired F-03, F-07, F-08, F-13, F-21.",
+    "Trusted: line classifier; gcc's notion of valid C for the skeleton is assumed, not modelled (no C parser available offline). Not decided: C++ "
+    "validity beyond guard pairing, user raw type names, per-program label numbering.")
